@@ -4,6 +4,7 @@ import Pixman.Lemmas.GradientSafety
 import Pixman.Lemmas.GradientGeometry
 import Pixman.Lemmas.GradientWalker
 import Pixman.Lemmas.GradientCompose
+import Pixman.Lemmas.GradientCoverage
 /-!
 # C13 — gradients paint the stop interpolation at each pixel's geometric parameter
 
@@ -475,5 +476,173 @@ example : qa 0 0 0 655360 0 0 = 655360 * 655360 := by decide +kernel
 
 /-- non-vacuity: concentric circles of radius 0 and 10 px, point 5 px from the centre: t = 1/2 -/
 example : selected 0 0 0 0 0 655360 327680 0 (327680 * 655360) .pad = some 32768 := by decide +kernel
+
+/-! ## G4b — which pixels a radial gradient paints (what `compute_image_info` relies on)
+
+`compute_image_info` flags a radial gradient opaque only if `a < 0` (one circle strictly inside the
+other), the repeat mode is not NONE and every stop has alpha 0xffff.  Proved here: then every pixel of
+an affine row is painted, with alpha exactly 1 (wide) / alpha byte 0xff (narrow), whatever the walk.
+Projective rows: a pixel whose homogeneous coordinate is 0 is CLEARED by `radial_get_scanline`
+(`radial_wzero_cleared`), so there the flag is not sound; every other pixel is painted. -/
+
+/-- `a < 0`, repeat other than NONE: the discriminant is never negative and with `s = sqrt (discr)`
+    `radial_write_color` selects a parameter for EVERY point of the plane (geometry in one unit) -/
+theorem radial_contained_paints_every_pixel (c1x c1y r1 c2x c2y r2 ptx pty s : Rat) (rep : Repeat)
+    (ha : qa c1x c1y r1 c2x c2y r2 < 0) (hrep : rep ≠ .none)
+    (hs : s * s = qb c1x c1y r1 c2x c2y r2 ptx pty * qb c1x c1y r1 c2x c2y r2 ptx pty -
+      qa c1x c1y r1 c2x c2y r2 * qc c1x c1y r1 ptx pty) :
+    0 ≤ qb c1x c1y r1 c2x c2y r2 ptx pty * qb c1x c1y r1 c2x c2y r2 ptx pty -
+      qa c1x c1y r1 c2x c2y r2 * qc c1x c1y r1 ptx pty ∧
+    ∃ t, selected c1x c1y r1 c2x c2y r2 ptx pty s rep = some t :=
+  ⟨contained_discr_nonneg (c2x - c1x) (c2y - c1y) (r2 - r1) (ptx - c1x) (pty - c1y) r1 _ _ _ rfl rfl rfl ha,
+   radialT_contained_isSome (c2x - c1x) (c2y - c1y) (r2 - r1) (ptx - c1x) (pty - c1y) r1 s _ _ _ rep rfl rfl rfl ha hs hrep⟩
+
+/-- the same for the model's `radial_write_color` call at the centre-relative point `(pdx, pdy)`, with
+    any `sqrt` that is a square root on non-negative arguments -/
+theorem radial_contained_pixel_painted (r : Radial) (f : Rat → Rat) (hf : IsSqrt f) (rep : Repeat) (hrep : rep ≠ .none)
+    (ha : r.a < 0) (pdx pdy : Rat) :
+    ∃ t, radialPx r f rep (pdx * (r.dx : Rat) + pdy * (r.dy : Rat) + (r.r1 : Rat) * (r.dr : Rat))
+      (pdx * pdx + pdy * pdy - (r.r1 : Rat) * (r.r1 : Rat)) = Px.pos t :=
+  radialPx_contained r f hf rep hrep ha pdx pdy
+
+/-- a whole affine row (`radial_get_scanline`, forward differences): every pixel is written -/
+theorem radial_contained_row_painted (r : Radial) (f : Rat → Rat) (hf : IsSqrt f) (rep : Repeat) (hrep : rep ≠ .none)
+    (ha : r.a < 0) (tr : Option Pixman.Matrix.Transform) (x y : Int) (w : Nat) (v unit : Vec)
+    (hs : setupVec tr x y = some (v, unit)) (hu : unit.z = 0) (hz : v.z = fixed1) :
+    ∃ ps, radialScanline r f rep tr x y w = some ps ∧ ps.length = w ∧ ∀ p ∈ ps, ∃ q, p = Px.pos q :=
+  radialScanline_affine_contained r f hf rep hrep ha tr x y w v unit hs hu hz
+
+/-- projective rows: a pixel with non-zero homogeneous coordinate is written (`_partial`: the pixel
+    with `v.z = 0` is cleared although the image is flagged opaque — `radial_wzero_cleared`) -/
+theorem radial_contained_projective_pixel_painted_partial (r : Radial) (f : Rat → Rat) (hf : IsSqrt f) (rep : Repeat)
+    (hrep : rep ≠ .none) (ha : r.a < 0) (unit v : Vec) (n : Nat) (hz : v.z ≠ 0) :
+    ∃ t, (radialProjLoop r f rep unit (n + 1) v).head? = some (Px.pos t) :=
+  radialProjLoop_contained r f hf rep hrep ha unit v n hz
+
+/-- stops that are all opaque, a repeat mode other than NONE, ANY stop positions (sorted or not): every
+    written pixel has alpha exactly 1 in the wide pipeline and alpha byte 0xff in the narrow one, for
+    every sequence of parameters (walker history included) -/
+theorem opaque_stops_paint_alpha_one (rep : Repeat) (stops : Array Stop) (hrep : rep ≠ .none) (hne : 0 < stops.size)
+    (ho : AllOpaque stops) (ps : List Px) (hps : ∀ p ∈ ps, ∃ t, p = Px.pos t) :
+    (∀ c ∈ (rowWide (walkerInit rep stops) ps).2, c.a = 1) ∧
+    (∀ c ∈ (rowNarrow (walkerInit rep stops) ps).2, c / 16777216 = 255) :=
+  ⟨rowWide_opaque rep stops hrep hne ho ps _ (walkerInit_opaqueInv rep stops) hps,
+   rowNarrow_opaque rep stops hrep hne ho ps _ (walkerInit_opaqueInv rep stops) hps⟩
+
+/-- linear and conical rows write every pixel (so for them "opaque stops and not NONE" suffices) -/
+theorem linear_conical_rows_always_painted (l : Linear) (tr : Option Pixman.Matrix.Transform) (x y : Int) (w : Nat)
+    (c : Conical) (turns : List Rat) :
+    (∀ ps, linearScanline l tr x y w = some ps → ∀ p ∈ ps, ∃ q, p = Px.pos q) ∧
+    (∀ p ∈ conicalScanline c turns, ∃ q, p = Px.pos q) :=
+  ⟨fun ps h => linearScanline_all_pos l tr x y w ps h, conicalScanline_all_pos c turns⟩
+
+/-- soundness of the opacity flag of a radial gradient on affine rows: `a < 0`, repeat not NONE, all
+    stops opaque ⇒ the row exists, has `w` pixels, and each has alpha 1 / 0xff -/
+theorem radial_opaque_flag_sound (r : Radial) (f : Rat → Rat) (hf : IsSqrt f) (rep : Repeat) (hrep : rep ≠ .none)
+    (ha : r.a < 0) (stops : Array Stop) (hne : 0 < stops.size) (ho : AllOpaque stops)
+    (tr : Option Pixman.Matrix.Transform) (x y : Int) (w : Nat) (v unit : Vec)
+    (hs : setupVec tr x y = some (v, unit)) (hu : unit.z = 0) (hz : v.z = fixed1) :
+    ∃ ps, radialScanline r f rep tr x y w = some ps ∧ ps.length = w ∧
+      (∀ c ∈ (rowWide (walkerInit rep stops) ps).2, c.a = 1) ∧
+      (∀ c ∈ (rowNarrow (walkerInit rep stops) ps).2, c / 16777216 = 255) := by
+  obtain ⟨ps, h1, h2, h3⟩ := radialScanline_affine_contained r f hf rep hrep ha tr x y w v unit hs hu hz
+  exact ⟨ps, h1, h2, opaque_stops_paint_alpha_one rep stops hrep hne ho ps h3⟩
+
+/-- `a = 0` (the circles touch from inside), `r2 ≠ r1`, repeat not NONE: a pixel is painted exactly on
+    the open half plane `((p - c1)·(c2 - c1) + r1 (r2 - r1)) · (r2 - r1) > 0` -/
+theorem radial_tangent_half_plane (c1x c1y r1 c2x c2y r2 ptx pty s : Rat) (rep : Repeat)
+    (ha : qa c1x c1y r1 c2x c2y r2 = 0) (hdr : r2 - r1 ≠ 0) (hrep : rep ≠ .none) :
+    (∃ t, selected c1x c1y r1 c2x c2y r2 ptx pty s rep = some t) ↔
+      0 < qb c1x c1y r1 c2x c2y r2 ptx pty * (r2 - r1) := by
+  unfold selected
+  rw [ha]
+  exact radialT_tangent_half_plane (c2x - c1x) (c2y - c1y) (r2 - r1) (ptx - c1x) (pty - c1y) r1 s _ _ rep ha rfl rfl hdr hrep _
+
+/-- `a ≠ 0` (in particular `a > 0`, separate circles): where the discriminant is negative — outside
+    the cone swept by the circles — nothing is painted, in every repeat mode -/
+theorem radial_exterior_transparent (c1x c1y r1 c2x c2y r2 ptx pty s : Rat) (rep : Repeat)
+    (ha : qa c1x c1y r1 c2x c2y r2 ≠ 0)
+    (hd : qb c1x c1y r1 c2x c2y r2 ptx pty * qb c1x c1y r1 c2x c2y r2 ptx pty -
+      qa c1x c1y r1 c2x c2y r2 * qc c1x c1y r1 ptx pty < 0) :
+    selected c1x c1y r1 c2x c2y r2 ptx pty s rep = none :=
+  radialT_exterior_transparent _ _ _ _ _ _ s rep ha hd
+
+/-- non-vacuity: circle of radius 1 inside the concentric circle of radius 3 (`a = -4 < 0`); the point
+    at distance 2 has `b = 2`, `c = 3`, `discr = 16`: painted with `t = 1/2` -/
+example : qa 0 0 1 0 0 3 = -4 ∧ selected 0 0 1 0 0 3 2 0 4 .pad = some 32768 := by decide +kernel
+
+/-- non-vacuity of the half-plane rule: circles (0,0,r=1) and (2,0,r=3) touch from inside (`a = 0`);
+    the point (-3, 0) is not painted, the point (5, 0) is -/
+example : qa 0 0 1 2 0 3 = 0 ∧ selected 0 0 1 2 0 3 (-3) 0 0 .pad = none ∧
+    (selected 0 0 1 2 0 3 5 0 0 .pad).isSome = true := by decide +kernel
+
+/-! ## G3b — linear gradients under projective transforms (the per-pixel loop) -/
+
+/-- pixel `i` of the projective loop of `linear_get_scanline` whose homogeneous coordinate is not 0: the
+    walker receives `p` with `|p - 65536 · projection parameter of (vᵢ.x / vᵢ.z, vᵢ.y / vᵢ.z)| < 1`
+    where `vᵢ` is the (int32-stepped) vector of THAT pixel — one truncation, nothing accumulated.
+    Exact over `Rat`: the `double` evaluation of the division is not modelled. -/
+theorem linear_projective_position_close (l : Linear) (unit v : Vec) (t0 : Rat) (n i : Nat) (hi : i < n)
+    (hl : l.len2 ≠ 0) (hz : (iterV unit i v).z ≠ 0) :
+    ∃ p : Int, (linearProjLoop l unit n v t0)[i]? = some (Px.pos p) ∧
+      let exact := 65536 * S.linearT (px l.p1x) (px l.p1y) (px l.p2x) (px l.p2y)
+        (((iterV unit i v).x : Rat) / ((iterV unit i v).z : Rat)) (((iterV unit i v).y : Rat) / ((iterV unit i v).z : Rat))
+      (p : Rat) - exact < 1 ∧ exact - (p : Rat) < 1 := by
+  refine ⟨_, linearProjLoop_get l unit i n v t0 hi hz, ?_⟩
+  rw [← linearTQ_eq_projection l _ hl hz]
+  exact truncZ_close _
+
+/-- the vector of pixel `i` is `v + i · unit` as long as no `pixman_fixed_t` component overflows -/
+theorem linear_projective_vector (unit v : Vec) (i : Nat)
+    (h : ∀ j : Nat, j ≤ i → inI32 (v.x + j * unit.x) ∧ inI32 (v.y + j * unit.y) ∧ inI32 (v.z + j * unit.z)) :
+    iterV unit i v = ⟨v.x + i * unit.x, v.y + i * unit.y, v.z + i * unit.z⟩ :=
+  iterV_nowrap unit i v h
+
+/-- a pixel with homogeneous coordinate 0 repeats the previous parameter (the code does not recompute `t`) -/
+theorem linear_projective_wzero_repeats (l : Linear) (unit v : Vec) (t : Rat) (n : Nat) (hz : v.z = 0) :
+    (linearProjLoop l unit (n + 1) v t).head? = some (Px.pos (truncZ t)) :=
+  linearProjLoop_wzero l unit n v t hz
+
+/-! ## G6 — conical gradients: the parameter is the angle about the centre
+
+`atan2` is not modelled: `turn y x` stands for `atan2 (y, x) / 2π` and is only assumed to satisfy
+`IsTurn` (range (-1/2, 1/2], independence of the vector's length, the values on the axes, the signs on
+the half planes).  `diamond_isTurn` shows that the assumptions are satisfiable.  What the code
+computes is `1 - frac (turn + angle / 360°)`, i.e. the parameter lies in `(0, 1]` (1, not 0, on the
+seam), decreases as the angle grows, and jumps from ≈0 to 1 across the seam. -/
+
+/-- the 16.16 parameter handed to the walker is the Spec's `1 - frac (turn + angle/360)` truncated (error
+    below one unit), `MOD (angle, 360)` included, and the Spec's value lies in `(0, 1]` -/
+theorem conical_parameter_is_angle (c : Conical) (turn : Rat) :
+    let spec := Pixman.Spec.Gradient.conicalT turn ((c.angle : Rat) / 65536)
+    ((conicalT turn c.angleTurns : Int) : Rat) ≤ spec * 65536 ∧ spec * 65536 - ((conicalT turn c.angleTurns : Int) : Rat) < 1 ∧
+    0 < spec ∧ spec ≤ 1 :=
+  conicalT_close_to_spec c turn
+
+/-- range of the model's value: `[0, 65536]`, no `pixman_fixed_t` wrap -/
+theorem conical_parameter_range (turn a : Rat) : 0 ≤ conicalT turn a ∧ conicalT turn a ≤ 65536 :=
+  (conicalT_eq turn a).2
+
+/-- the parameter only depends on the direction of `(dx, dy)` from the centre -/
+theorem conical_scale_invariant (turn : Rat → Rat → Rat) (h : IsTurn turn) (dy dx k a : Rat) (hk : 0 < k) :
+    conicalT (turn (k * dy) (k * dx)) a = conicalT (turn dy dx) a :=
+  conicalT_scale_invariant turn h dy dx k a hk
+
+/-- the seam (gradient angle 0): on the positive x axis the parameter is 1; in the upper half plane it
+    is `1 - turn ≥ 1/2`, in the lower one `-turn ≤ 1/2`: crossing the axis upwards it jumps from ≈0 to 1 -/
+theorem conical_seam (turn : Rat → Rat → Rat) (h : IsTurn turn) (dy dx : Rat) :
+    (0 < dx → conicalT (turn 0 dx) 0 = 65536) ∧
+    (0 < dy → conicalT (turn dy dx) 0 = truncZ ((1 - turn dy dx) * 65536) ∧ 32768 ≤ conicalT (turn dy dx) 0) ∧
+    (dy < 0 → conicalT (turn dy dx) 0 = truncZ ((-turn dy dx) * 65536) ∧ conicalT (turn dy dx) 0 ≤ 32768) :=
+  ⟨conicalT_on_seam turn h dx, conicalT_above_seam turn h dy dx, conicalT_below_seam turn h dy dx⟩
+
+/-- within a period the parameter decreases as the angle grows -/
+theorem conical_decreases_with_angle (t1 t2 a : Rat) (h : fracQ (t1 + a) ≤ fracQ (t2 + a)) :
+    conicalT t2 a ≤ conicalT t1 a :=
+  conicalT_antitone t1 t2 a h
+
+/-- non-vacuity of `IsTurn`, and two values: straight up is a quarter turn (t = 3/4), straight left half a turn -/
+example : IsTurn diamondTurn ∧ conicalT (diamondTurn 5 0) 0 = 49152 ∧ conicalT (diamondTurn 0 (-2)) 0 = 32768 :=
+  ⟨diamond_isTurn, by decide +kernel, by decide +kernel⟩
 
 end Pixman.Props.C13
